@@ -30,7 +30,7 @@ import RedisVerif.Props.C16
     SC <n> <hex-arg>*n <k> {c|p} <m> <aexpr>*m … R <ret> D <d>*k
                       → `execute_lua_script` on a script of k call statements: the EVAL frame (its KEYS / ARGV reach
                         the script through `parseCmd` + `envOfEval`), the statements (c = redis.call, p = redis.pcall;
-                        aexpr = K<i> | A<i> | <lua>), the return expression (r<i> | T<n> e1 … en | L <lua>) and, per
+                        aexpr = K<i> | A<i> | R<i> (the result of statement i) | <lua>), the return expression (r<i> | T<n> e1 … en | L <lua>) and, per
                         statement, the reply the CLIENT path gave for the same words (`-` = none): the executor is a
                         parameter of the model, here it replays these replies.
                         completed=<statements completed> reply=<resp> | crash
@@ -231,6 +231,9 @@ def aexprP (fuel : Nat) : P AExpr := do
     | 'A' :: cs => match (String.ofList cs).toNat? with
       | some i => do set ts; pure (.argv i)
       | none => failure
+    | 'R' :: cs => match (String.ofList cs).toNat? with
+      | some i => do set ts; pure (.res i)
+      | none => failure
     | _ => do
       let v ← luaP fuel
       pure (.lit v)
@@ -294,23 +297,27 @@ def replayExec (ds : List Resp) (_ : Cmd) : List Resp × Resp :=
   | d :: t => (t, d)
   | [] => ([], .error (s2b "missing-direct-reply"))
 
-/-- the replies the model's run will ask for: one per statement whose words the translator accepts -/
-def alignReplies (env : Env) : List Call → List (Option Resp) → List Resp
-  | c :: cs, d :: ds =>
-    match c.words env with
-    | some (w :: ws) =>
-      match parseLua (w :: ws) with
-      | .ok _ => (d.getD (.error (s2b "missing-direct-reply"))) :: alignReplies env cs ds
-      | .error _ => alignReplies env cs ds
-    | _ => alignReplies env cs ds
-  | _, _ => []
+/-- the replies the model's run will ask for: one per statement whose words (evaluated with the results so far)
+    the translator accepts, up to the statement that ends the script -/
+def alignReplies (env : Env) : List LuaVal → List Call → List (Option Resp) → List Resp
+  | acc, c :: cs, d :: ds =>
+    let r := d.getD (.error (s2b "missing-direct-reply"))
+    let consumed := match c.words env acc with
+      | some (w :: ws) => (parseLua (w :: ws)).isOk
+      | _ => false
+    let here := if consumed then [r] else []
+    match doCall (fun (u : Unit) (_ : Cmd) => (u, r)) () c.prot (c.args.map (AExpr.eval env acc)) with
+    | .value _ v => here ++ alignReplies env (acc ++ [v]) cs ds
+    | .raise _ _ => here
+    | .crash => []
+  | _, _, _ => []
 
 def runScriptOp (o : ScriptOp) : String :=
   match parseCmd o.frame with
   | .ok c =>
     match envOfEval c with
     | some env =>
-      let ds := alignReplies env o.script.calls o.direct
+      let ds := alignReplies env [] o.script.calls o.direct
       let r := runCalls replayExec env ds o.script.calls
       match (evalScript replayExec env ds o.script).2 with
       | some reply => s!"completed={r.results.length} reply={showResp reply}"
